@@ -401,7 +401,7 @@ pub fn run_c13(cfg: &Cfg) -> Report {
         Len,
     }
     let offs = [Off::Abs(0), Off::Abs(3), Off::Abs(4), Off::Abs(7), Off::Abs(8), Off::Abs(9), Off::Abs(10), Off::Abs(35), Off::LastValid, Off::LastValidPlus1, Off::Len];
-    let n_alpha: u64 = 5 * offs.len() as u64 + 12 + 5;
+    let n_alpha: u64 = 5 * offs.len() as u64 + 12 + 5 + 4;
     let mk = move |code: u64, cur_len: usize| -> SdtOp {
         if code < 5 * offs.len() as u64 {
             let w = [1usize, 2, 4, 8, 3][(code / offs.len() as u64) as usize];
@@ -433,7 +433,13 @@ pub fn run_c13(cfg: &Cfg) -> Report {
                 10 => SdtOp::SinkVec(vec![9, 8, 7]),
                 11 => SdtOp::WriteBytes(cur_len, vec![]), // empty write exactly at the end: in range
                 // the caller writes into the Length field the value a following append will make true
-                k => SdtOp::WriteU32(4, (cur_len + [1usize, 2, 4, 8, 5][(k - 12) as usize]) as u32),
+                k @ 12..=16 => SdtOp::WriteU32(4, (cur_len + [1usize, 2, 4, 8, 5][(k - 12) as usize]) as u32),
+                // slice writes that start inside the header (before / at the checksum byte) and run
+                // one byte past the end: refused, and the table must be left untouched
+                k => {
+                    let start = [0usize, 5, 9, 10][(k - 17) as usize];
+                    SdtOp::WriteBytes(start, vec![0xD7; cur_len - start + 1])
+                }
             }
         }
     };
@@ -528,6 +534,14 @@ pub fn run_c13(cfg: &Cfg) -> Report {
                     // offsets: header, checksum byte, length field, last valid, one past, far beyond
                     let ro = r.usize_below(cur + 4);
                     let off = *r.pick(&[0usize, 2, 4, 6, 8, 9, 10, 35, cur.saturating_sub(w), cur.saturating_sub(w) + 1, cur, ro, usize::MAX - 1, usize::MAX]);
+                    if k == 17 && r.chance(1, 4) {
+                        // a long slice starting in the header, ending around the end of the table
+                        let start = r.usize_below(12);
+                        let over = r.usize_below(3);
+                        let n = (cur + over).saturating_sub(start + 1) + r.usize_below(2);
+                        ops.push(SdtOp::WriteBytes(start, r.byte_vec(n)));
+                        continue;
+                    }
                     if k == 14 && r.chance(1, 3) {
                         // Length field pre-set to what one of the next appends would make it
                         let ahead = *r.pick(&[1usize, 2, 3, 4, 8]);
